@@ -14,6 +14,7 @@ import z3 as _z3
 
 from pyvc.api import *
 from pyvc.hostmodels import UF
+from pyvc.values import GhostVal
 from contracts.c15_leaf_codecs import hex_facts, _env, _concat_lemmas
 
 YJ = "cspuz/puzzle/yajilin.py"
@@ -60,7 +61,25 @@ def yajilin_clue_roundtrip(case):
         value = SStr(_z3.Concat(_z3.StringVal(case.d), D))
     else:
         value = case.d + str(n)
-    o = call(REAL(YJ, "YajilinClue.serialize"), obj, env, mklist(["..", value]), 1)
+    if CTX.mode == "sym":
+        # the clue sits at an arbitrary position of an arbitrary list of cell texts
+        n_items, pos = sint("len"), sint("idx")
+        requires(And(pos >= 0, pos < n_items))
+
+        class Cells(GhostVal):
+            """the list is only read at the position asked for"""
+            pv_pytype = "list"
+
+            def pv_len(self):
+                return n_items
+
+            def pv_getitem(self, i):
+                check("only-the-item-at-idx-is-read", i == pos)
+                return value
+        data = Cells()
+    else:
+        data, pos = mklist(["..", value]), 1
+    o = call(REAL(YJ, "YajilinClue.serialize"), obj, env, data, pos)
     check("serialize-accepts", And(not o.raised, o.value is not None))
     if o.raised or o.value is None:
         return
